@@ -764,32 +764,98 @@ func (fr *Frame) load(st *State, p Value) Value {
 // term are distinct objects, so a write through one is not seen through the other.
 func (fr *Frame) functionalElem(st *State, q *PtrV, t types.Type) Value {
 	tc := fr.topContract()
-	if tc == nil || tc.Options["functional-nested-slices"] == "" || len(q.Path) != 1 || q.Path[0].T == nil {
-		return nil
-	}
-	sl, ok := t.Underlying().(*types.Slice)
-	if !ok {
-		return nil
-	}
-	s := fr.v.scalarSort(sl.Elem())
-	if s == nil {
+	if tc == nil || tc.Options["functional-nested-slices"] == "" || len(q.Path) != 1 {
 		return nil
 	}
 	v, F := fr.v, fr.v.F
+	u := v.ufunOf(st, q.Obj)
+	if u == nil {
+		return nil
+	}
 	idx := q.Path[0].T
-	base := fmt.Sprintf("%s#%d!v%d", sanitize(q.Obj.Name), q.Obj.ID, st.uver[q.Obj])
-	lens := F.Var(base+"@lens", arraySort(SInt))
-	caps := F.Var(base+"@caps", arraySort(SInt))
-	cont := F.Var(base+"@cont", arraySort(arraySort(s)))
+	if idx == nil {
+		idx = F.I64(int64(q.Path[0].I)) // a constant index
+	}
+	root := q.Obj
+	if q.Obj.UFrom != nil {
+		root = q.Obj.UFrom
+	}
 	o := v.newObject(q.Obj.Name+"[row]", t, q.Obj.Entry)
-	o.UFrom = q.Obj
-	st.mem[o] = &ArrV{Arr: F.Select(cont, idx), Elem: sl.Elem()}
-	ln, cp := F.Select(lens, idx), F.Select(caps, idx)
+	o.UFrom = root
+	ln, cp := F.Select(u.Lens[0], idx), F.Select(u.Caps[0], idx)
+	if len(u.Lens) == 1 {
+		// the rows are slices of scalars: a modelled array
+		st.mem[o] = &ArrV{Arr: F.Select(u.Cont, idx), Elem: t.Underlying().(*types.Slice).Elem()}
+	} else {
+		// the rows are slices of slices themselves: one level less
+		o.Unmodelled = true
+		o.ElemType = t.Underlying().(*types.Slice).Elem()
+		nu := &UFun{Ver: u.Ver, Cont: F.Select(u.Cont, idx)}
+		for k := 1; k < len(u.Lens); k++ {
+			nu.Lens = append(nu.Lens, F.Select(u.Lens[k], idx))
+			nu.Caps = append(nu.Caps, F.Select(u.Caps[k], idx))
+		}
+		o.UFun = nu
+	}
 	if v.specDepth == 0 {
 		st.pc = F.And(st.pc, F.Le(F.I64(0), ln), F.Le(ln, cp), F.Le(cp, F.Int(big.NewInt(1<<40))))
-		v.assume("option functional-nested-slices: the rows of " + q.Obj.Name + " are functions of the index; rows read at indices that are not the same term are treated as distinct objects")
+		v.assume("option functional-nested-slices: the rows of " + root.Name + " are functions of the index (at every level of nesting); rows read at indices that are not the same term are treated as distinct objects")
 	}
 	return &SliceV{Obj: o, Off: F.I64(0), Len: ln, Cap: cp}
+}
+
+// UFun: the functions (SMT arrays) that stand for the memory of an unmodelled slice of slices ... of scalars.
+// Lens[k] / Caps[k] give the lengths / capacities of the slices k+1 levels down (sort Array^(k+1) Int), Cont the
+// scalars at the bottom (sort Array^(len(Lens)+1) S). Ver is the version of the root they were derived from.
+type UFun struct {
+	Ver        int
+	Lens, Caps []*Term
+	Cont       *Term
+}
+
+// ufunOf: the functions of an unmodelled slice at the current version of its root; nil when the slice is not a
+// slice of slices ... of scalar-sorted elements, or when it was derived from a version that a write has since ended
+// (its rows then read as arbitrary values again).
+func (v *Verifier) ufunOf(st *State, o *Object) *UFun {
+	F := v.F
+	if o.UFrom != nil {
+		if o.UFun == nil || o.UFun.Ver != st.uver[o.UFrom] {
+			return nil
+		}
+		return o.UFun
+	}
+	depth := 0
+	t := o.ElemType
+	var s *Sort
+	for t != nil {
+		sl, ok := t.Underlying().(*types.Slice)
+		if !ok {
+			return nil
+		}
+		depth++
+		if s = v.scalarSort(sl.Elem()); s != nil {
+			break
+		}
+		t = sl.Elem()
+	}
+	if s == nil || depth == 0 || depth > 3 {
+		return nil
+	}
+	ver := st.uver[o]
+	base := fmt.Sprintf("%s#%d!v%d", sanitize(o.Name), o.ID, ver)
+	u := &UFun{Ver: ver}
+	is := SInt
+	for k := 1; k <= depth; k++ {
+		is = arraySort(is)
+		u.Lens = append(u.Lens, F.Var(fmt.Sprintf("%s@lens%d", base, k), is))
+		u.Caps = append(u.Caps, F.Var(fmt.Sprintf("%s@caps%d", base, k), is))
+	}
+	cs := s
+	for k := 0; k <= depth; k++ {
+		cs = arraySort(cs)
+	}
+	u.Cont = F.Var(base+"@cont", cs)
+	return u
 }
 
 // bumpU starts a new version of the functions that stand for the memory of an unmodelled slice of slices.
@@ -802,6 +868,9 @@ func (v *Verifier) bumpU(st *State, o *Object) {
 	}
 	v.fresh++
 	st.uver[o] = v.fresh
+	if traceOn {
+		fmt.Fprintf(os.Stderr, "trace: new version %d of the rows of %s\n", v.fresh, o.Name)
+	}
 }
 
 var traceOn = os.Getenv("GCV_TRACE") != ""
